@@ -21,6 +21,8 @@ def run(res):
     th = res.tier == 'thorough'
     wc.trace_validate(res, 'c01_recorded', wc.big({'create', 'create2', 'add', 'remove', 'delete', 'process', 'clear', 'fault'}), 2000 if th else 150, 60)
     wc.repo_tests_validate(res)
+    if th:
+        wc.simulate_big(res, salt=1)
     # non-vacuity: the as-implemented branches violate the invariants
     wc.switch_run(res, 'c01', K, 'ReplaceBeforeIndex', ('IndexIsTranspose', 'QueriesAgree'))
     wc.switch_run(res, 'c01', K, 'AutoIdSkipsUsed', ('AutoIdFresh',))
